@@ -725,6 +725,16 @@ func (e *Engine) trCall(env *SpecEnv, n SCall) Val {
 			}
 		}
 		e.specFail(env, "visited(): the current loop is not a range over a map")
+	case "tokCount":
+		// tokCount(reader): number of tokens (lines, by default) a bufio.Scanner reads from reader
+		e.sc.declareFun("tokCount", []string{"Int"}, "Int")
+		return intVal("(tokCount " + arg(0).T + ")")
+	case "tokAt":
+		e.sc.declareFun("tokAt", []string{"Int", "Int"}, "String")
+		return Val{T: "(tokAt " + arg(0).T + " " + arg(1).T + ")", S: "String", GoT: tString}
+	case "scanned":
+		// scanned(scanner): number of tokens the scanner has yielded so far
+		return intVal(sel(e.heapIn(env.st, "HF_bufio.Scanner_$pos", "(Array Int Int)"), arg(0).T))
 	case "curKey":
 		// curKey("range m"): the key yielded by the current iteration of the named map loop (also when the program
 		// discards it with _); curKey() names the loop of the invariant itself
